@@ -761,7 +761,15 @@ def run(ctx):
             for n in ast.walk(fi.node):
                 if isinstance(n, ast.Call):
                     d = ast.unparse(n.func)
-                    if d.startswith('sys.stdout') or d == 'print' or d.startswith('sys.stderr'):
+                    to_stderr = d.startswith('sys.stderr') or (d == 'print' and any(
+                        kw.arg == 'file' and ast.unparse(kw.value) == 'sys.stderr' for kw in n.keywords))
+                    if to_stderr:
+                        # standard error is not the channel the property speaks about (first version: counted as output - a
+                        # false alarm on the correct PR V1-R2, a --verbose switch reporting progress on stderr)
+                        ob.evaluations += 1
+                        ob.note('%s:%d: %s writes to standard error (not judged by this rule)' % (fi.module.relpath, n.lineno, fi.qual))
+                        continue
+                    if d.startswith('sys.stdout') or d == 'print':
                         n_out += 1
                         ob.require(fi is pprint, 'wallet data can reach standard output outside PaperWallet.pprint', '%s:%d' % (fi.module.relpath, n.lineno),
                                    found='%s in %s' % (d, fi.qual))
